@@ -98,3 +98,27 @@ pub open spec fn min3(a: nat, b: nat, c: nat) -> nat { if a <= b && a <= c { a }
 pub fn v_izip3<A: IntoIterator, B: IntoIterator, C: IntoIterator>(a: A, b: B, c: C) -> (r: VSeqIter<(A::Item, B::Item, C::Item)>)
     ensures r.items().len() == min3(into_iter_seq(a).len(), into_iter_seq(b).len(), into_iter_seq(c).len())
 { unimplemented!() }
+pub broadcast proof fn lemma_interleave_index<T>(a: Seq<T>, b: Seq<T>, k: int)
+    requires a.len() == b.len(), 0 <= k < 2 * a.len()
+    ensures #[trigger] interleave_seq(a, b)[k] == (if k % 2 == 0 { a[k / 2] } else { b[k / 2] })
+    decreases a.len() + b.len()
+{
+    reveal_with_fuel(interleave_seq, 3);
+    let a1 = a.drop_first();
+    let b1 = b.drop_first();
+    let x = interleave_seq(b, a1);
+    let y = interleave_seq(a1, b1);
+    assert(interleave_seq(a, b) == seq![a[0]] + x);
+    assert(x == seq![b[0]] + y);
+    if k == 0 {
+    } else if k == 1 {
+        assert((seq![a[0]] + x)[1] == x[0]);
+    } else {
+        lemma_interleave_index(a1, b1, k - 2);
+        lemma_interleave_len(a1, b1);
+        assert((seq![a[0]] + x)[k] == x[k - 1]);
+        assert((seq![b[0]] + y)[k - 1] == y[k - 2]);
+        assert((k - 2) / 2 == k / 2 - 1 && (k - 2) % 2 == k % 2);
+        assert(a1[(k - 2) / 2] == a[k / 2] && b1[(k - 2) / 2] == b[k / 2]);
+    }
+}
